@@ -282,6 +282,22 @@ pub fn oracle(ctx: &mut Ctx) {
             for p in g.samples.chunks_mut(c) { p[1] = p[0]; p[2] = p[0]; }
             if let Some(k) = g.trns.as_mut() { k[1] = k[0]; k[2] = k[0]; }
             img = g.pack(false);
+        } else if prop == "C14" && rng.chance(1, 3) {
+            // grayscale images with few distinct (gray, alpha) values, so that a palette is on the table
+            let ct = *rng.choose(&[0u8, 4, 4]);
+            let (w, h) = (rng.range(6, 40) as u32, rng.range(6, 40) as u32);
+            let (mut g, _) = gen_grid(&mut rng, ct, 8, w, h);
+            let c = channels(ct);
+            let k = rng.range(2, 9) as usize;
+            let vals: Vec<Vec<u16>> = (0..k).map(|_| (0..c).map(|_| rng.below(256) as u16).collect()).collect();
+            let runs = rng.bool();
+            let mut cur = 0usize;
+            for p in g.samples.chunks_mut(c) {
+                if !runs || rng.chance(1, 5) { cur = rng.below(k as u64) as usize; }
+                p.copy_from_slice(&vals[cur]);
+            }
+            g.trns = None;
+            img = g.pack(rng.chance(1, 4));
         }
         let animated = prop == "C10" || (prop == "C02" && rng.chance(1, 4));
         let mut enc = if animated { EncOpts::default() } else { gen_meta(&mut rng, &img, prop != "C10") };
